@@ -645,6 +645,11 @@ class SLog:
         bad = o2.p == 0
         return SLog(ite(bad, 1, self.p / ite(bad, 1, o2.p)), s_or(self.nan, o2.nan, bad))
 
+    def __rpow__(self, base):
+        if base != 2:
+            raise Inconclusive("pow with a base other than 2 on a log-domain value")
+        return self.p
+
     def _cmp(self, o, f, inf_res, ninf_f):
         if isinstance(o, float) and o == float("inf"):
             return inf_res
@@ -790,6 +795,7 @@ def s_sum(it, start=0):
 
 def s_int(x=0, *a):
     import builtins
+    x = unwrap0(x)
     if isinstance(x, SInt):
         return x
     if isinstance(x, SBool):
@@ -803,6 +809,7 @@ def s_int(x=0, *a):
 
 def s_float(x=0.0):
     import builtins
+    x = unwrap0(x)
     if isinstance(x, SReal):
         return x
     if isinstance(x, SInt):
